@@ -131,6 +131,7 @@ theorem nest_inner (pan : Nat → Bool) (n : Nat) (mid : List Op) (w : World) (d
     exact ⟨he, hl, hc, by intro e h; cases h⟩
   | cons op ops ih =>
     simp only [runFrom]
+    rw [step_spec]
     -- a step that keeps the frame of notifier n and emits no batch event of n
     have keep : ∀ (w' : World) (evs : List Event), Frame (w n) (w' n) → NoBatchEvents n evs → matched n d ops = true →
         ((runFrom pan w' ops).1 n).enabled = true ∧ ((runFrom pan w' ops).1 n).level = 1 ∧
@@ -151,7 +152,7 @@ theorem nest_inner (pan : Nat → Bool) (n : Nat) (mid : List Op) (w : World) (d
     | unregister i t =>
       exact keep _ _ (frame_set i _ (fun e => e ▸ frame_unregister _ _)) nil_ok (by simpa [matched] using hm)
     | merge i m =>
-      simp only [step]
+      simp only [stepSpec]
       split
       · exact keep _ _ ⟨rfl, rfl, rfl⟩ nil_ok (by simpa [matched] using hm)
       · exact keep _ _ (frame_set i _ (fun e => e ▸ frame_mergeFrom _ _)) nil_ok (by simpa [matched] using hm)
@@ -170,7 +171,7 @@ theorem nest_inner (pan : Nat → Bool) (n : Nat) (mid : List Op) (w : World) (d
         simp only [if_true] at hm
         have hs : startBatch (w i) = ({ (w i) with level := d + 2 }, []) := by
           unfold startBatch; simp [he, hl]
-        simp only [step, hs]
+        simp only [stepSpec, hs]
         have := ih (w.set i { (w i) with level := d + 2 }) (d + 1) (by simp [World.set, he]) (by simp [World.set])
           (by simp [World.set, hc]) hm
         simpa [batchAll] using this
@@ -186,7 +187,7 @@ theorem nest_inner (pan : Nat → Bool) (n : Nat) (mid : List Op) (w : World) (d
           unfold endBatch
           have : ¬ d = 0 := by omega
           simp [he, hl, this]
-        simp only [step, hs]
+        simp only [stepSpec, hs]
         have := ih (w.set i { (w i) with level := d }) (d - 1) (by simp [World.set, he]) (by simp [World.set]; omega)
           (by simp [World.set, hc]) hm
         simpa [batchAll] using this
@@ -213,12 +214,13 @@ theorem nest_outer (pan : Nat → Bool) (w : World) (hw : WInv w) (n : Nat) (mid
   have hin := nest_inner pan n mid ((w.set n (startBatch (w n)).1)) 0 (w n).batch
     (by simp [World.set, s2]) (by simp [World.set, s3]) (by simp [World.set, s4]) hm
   obtain ⟨i1, i2, i3, i4⟩ := hin
-  refine ⟨by simp [step, s1], by simpa [step] using i4, ?_, ?_⟩
-  · simp only [step] at i1 i2 i3 ⊢
+  simp only [step_spec]
+  refine ⟨by simp [stepSpec, s1], by simpa [stepSpec] using i4, ?_, ?_⟩
+  · simp only [stepSpec] at i1 i2 i3 ⊢
     have : (endBatch ((runFrom pan (w.set n (startBatch (w n)).1) mid).1 n)).2 = (w n).batch := by
       unfold endBatch; simp [i1, i2, i3]
     rw [this]
-  · simp only [step] at i1 i2 i3 ⊢
+  · simp only [stepSpec] at i1 i2 i3 ⊢
     unfold endBatch; simp [i1, i2, World.set]
 
 /-! ### normalisation -/
